@@ -49,7 +49,11 @@ CLAIMED = {
     'C06': {
         'text': ('Lean 4 on the level-loop model: manual stepping = resolve_iter, resolve_all = last of resolve_iter, the '
                  'results form a chain (coarse graph of step i+1 = fine graph of step i, names switched), every step is '
-                 'the one-step model so the per-step theorems hold at every level; L-restore applies level-wise. '
+                 'the one-step model so the per-step theorems hold at every level — made explicit by C06_guarantees_every_step: '
+                 'for every list of levels with well-formed templates and an aromaticity correction that changes flags and '
+                 'orders only (the recorded contract of the external call), every element of resolve_iter has fine keys '
+                 'exactly 0..n-1 and every fine node is a member of, and listed under, at least one coarse node of that step; '
+                 'L-restore applies level-wise. '
                  'End-to-end equivalence with the flattened description is validated by correspondence + oracle on '
                  'generated hierarchical groupings (partial: not proved).'),
         'note': RESOLVE_NOTE,
